@@ -22,7 +22,7 @@ HARNESSES = {
         "files": ["harness/grpcgcp/zz_verif_gme_test.go", "harness/grpcgcp/zz_verif_pool_test.go"], "rewrite": "vclock",
         "extra_files": {"multiendpoint/zz_verif_dump.go": "harness/multiendpoint/zz_verif_dump.go"},
         "corpus_glob": "*.ops", "corpus_dirs": ["C15", "C16"],
-        "episode_start": r"^gme new",
+        "episode_start": r"^gme (new|livemon)",
         "tiers": {"quick": {"episodes": 120}, "thorough": {"episodes": 3000, "seeds": 4}},
     },
     "st": {
@@ -139,7 +139,7 @@ ST_TB = TB_COMMON + [
 
 GME_TB = TB_COMMON + [
     "the MultiEndpoints inside GCPMultiEndpoint run without recovery timeout and switching delay in the harness (their clock lives in another package and cannot be virtualised); C13/C14 cover the timers",
-    "pools are real *grpc.ClientConn whose connection attempts never finish; availability changes are delivered by calling monitoredConn.notify in-package (what the monitor goroutine does); how long a real monitor takes to see a connectivity change ('within bounded time') is not modelled",
+    "pools are real *grpc.ClientConn whose connection attempts never finish; availability changes are delivered by calling monitoredConn.notify in-package (what the monitor goroutine does); how long a real monitor takes to see a connectivity change ('within bounded time') is not modelled; the monitor goroutine's loop is modelled separately (Model/Monitor.lean, small-step, every interleaving with state changes) and tied by the regenerated fact monitorWaitsOnNotifiedState (one GetState per iteration, notify and WaitForStateChange receive that value); gRPC's WaitForStateChange(ctx, s) is assumed to return once the state differs from s",
     "Go map iteration order of the final status update of UpdateMultiEndpoints is an input of the model: the driver accepts the implementation's state if some order explains it; theorems hold for every order",
     "open connections are counted via GetState() != Shutdown on every connection the DialFunc returned; monitors are counted in the goroutine profile",
 ]
@@ -168,8 +168,9 @@ PROPS = {
             "assumptions": ["soundness of the AST extraction (trusted)", "balancer callbacks are serialised by gRPC"]},
     "C15": {"harnesses": ["gme"], "lake_targets": ["GcpVerif"],
             "theorems": gme_thms(["rpc_routes_current", "pickME_known", "pickME_unknown", "pickME_no_name", "pools_exact_after_update", "only_missing_dialled"]) +
-                        [("GcpVerif.Proofs.GME3", "GcpVerif.GME." + n) for n in ["update_syncs_status", "update_syncs_status_reach", "fold_sync_status"]],
-            "leanchecker": ["GcpVerif.Proofs.GME", "GcpVerif.Proofs.GME3"], "trusted_base": GME_TB,
+                        [("GcpVerif.Proofs.GME3", "GcpVerif.GME." + n) for n in ["update_syncs_status", "update_syncs_status_reach", "fold_sync_status"]] +
+                        [("GcpVerif.Proofs.Monitor", "GcpVerif.Monitor." + n) for n in ["blocked_means_told", "progress", "reread_misses_update", "monitor_loop_shape"]],
+            "leanchecker": ["GcpVerif.Proofs.GME", "GcpVerif.Proofs.GME3", "GcpVerif.Proofs.Monitor"], "trusted_base": GME_TB,
             "assumptions": ["'within bounded time' is observed only through the monitor's notification being delivered by the harness"]},
     "C16": {"harnesses": ["gme"], "lake_targets": ["GcpVerif"],
             "theorems": gme_thms(["failed_update_is_identity", "invalid_options_rejected", "dial_failure_rejected", "close_releases_all", "rpc_routes_current"]) +
@@ -235,7 +236,10 @@ PROPS = {
                 leanchecker=["GcpVerif.Proofs.PoolPublish", "GcpVerif.Proofs.PoolReady"]),
     "C05": dict(pool_prop([]), theorems=[("GcpVerif.Proofs.PoolTables", "GcpVerif.Pool." + n) for n in
                 ["pool_connections_only", "tables_run"]] + [("GcpVerif.Proofs.PoolValid", "GcpVerif.Pool." + n) for n in
-                ["pool_never_panics", "slots_exist", "valid_run"]]),
+                ["pool_never_panics", "slots_exist", "valid_run"]] +
+                [("GcpVerif.Proofs.KeyPath", "GcpVerif.KeyPath." + n) for n in
+                 ["keys_eq_follow", "nil_is_error", "nil_nested_is_error", "empty_slice_no_keys", "missing_field_error", "non_struct_error"]],
+                harnesses=["pool", "kp"], trusted_base=POOL_TB + [t for t in KP_TB if t not in TB_COMMON]),
     "C06": pool_prop_plus([], [("GcpVerif.Proofs.Sync", "GcpVerif.Sync.c06_no_self_acquire"), ("GcpVerif.Proofs.Sync", "GcpVerif.Sync.c06_order_acyclic"),
                                 ("GcpVerif.Proofs.SyncOrder", "GcpVerif.Sync.no_wait_cycle"), ("GcpVerif.Proofs.SyncOrder", "GcpVerif.Sync.c06_order_certified"),
                                 ("GcpVerif.Proofs.SyncOrder", "GcpVerif.Sync.c06_edges_present")], ["wall-clock bounds are observed by the harness watchdog (3 s per call), not proved"]),
